@@ -515,6 +515,86 @@ func exploreTransport(a, b, prePairings int, scratch string) (points int, err er
 	return points, nil
 }
 
+// exploreFirstStart kills the very first start of a transport on an empty storage directory at every crash
+// point and then starts it completely, twice. Nothing was paired, so the accessory must come up
+// discoverable (sf=1) with one identity that stays: whatever the killed run left behind must not count as a pairing.
+func exploreFirstStart(variant int, scratch string) (points int, err error) {
+	work := filepath.Join(scratch, "first")
+	countFile := filepath.Join(scratch, "count1.txt")
+	outFile := filepath.Join(scratch, "report1.txt")
+	os.RemoveAll(work)
+	os.MkdirAll(work, 0755)
+	os.Remove(countFile)
+	if rc, e := runTransportChild(work, variant, 0, countFile, outFile); e != nil || rc != 0 {
+		return 0, fmt.Errorf("INFRA: counting run failed rc=%d %v", rc, e)
+	}
+	cb, _ := ioutil.ReadFile(countFile)
+	if len(bytes.TrimSpace(cb)) > 0 {
+		points = len(strings.Split(strings.TrimSpace(string(cb)), "\n"))
+	}
+	for k := 1; k <= points; k++ {
+		os.RemoveAll(work)
+		os.MkdirAll(work, 0755)
+		os.Remove(countFile)
+		rc, e := runTransportChild(work, variant, k, countFile, outFile)
+		if e != nil || rc != 77 {
+			return points, fmt.Errorf("INFRA: child did not stop at crash point %d (rc=%d, %v)", k, rc, e)
+		}
+		pb, _ := ioutil.ReadFile(countFile)
+		lines := strings.Split(strings.TrimSpace(string(pb)), "\n")
+		point := fmt.Sprintf("%d (%s)", k, lines[len(lines)-1])
+		var ids [2]string
+		for run := 0; run < 2; run++ {
+			os.Remove(outFile)
+			if rc, e := runTransportChild(work, variant, 0, countFile, outFile); e != nil || rc != 0 {
+				return points, fmt.Errorf("first start on empty storage killed at crash point %s: start %d afterwards fails (rc=%d %v)", point, run+1, rc, e)
+			}
+			id, c, sf := readReport(outFile)
+			ids[run] = id
+			if id == "" || c < 1 {
+				return points, fmt.Errorf("first start on empty storage killed at crash point %s: start %d afterwards advertises id %q c#=%d", point, run+1, id, c)
+			}
+			if sf != "1" {
+				return points, fmt.Errorf("first start on empty storage killed at crash point %s: start %d afterwards advertises sf=%s although no controller was ever paired (stored entities: %s)", point, run+1, sf, entityNames(work))
+			}
+		}
+		if ids[0] != ids[1] {
+			return points, fmt.Errorf("first start on empty storage killed at crash point %s: the two following starts advertise different ids %q and %q", point, ids[0], ids[1])
+		}
+	}
+	return points, nil
+}
+
+func entityNames(dir string) string {
+	m, _ := filepath.Glob(filepath.Join(dir, "*.entity"))
+	var out []string
+	for _, f := range m {
+		out = append(out, filepath.Base(f))
+	}
+	return fmt.Sprint(out)
+}
+
+// TestC19FirstStart: see exploreFirstStart.
+func TestC19FirstStart(t *testing.T) {
+	for variant := 0; variant < 2; variant++ {
+		scratch := scratchDir()
+		points, err := exploreFirstStart(variant, scratch)
+		os.RemoveAll(scratch)
+		if err != nil && strings.HasPrefix(err.Error(), "INFRA") {
+			fmt.Println("VERIF-INCONCLUSIVE:", err)
+			t.Fatalf("%v", err)
+		}
+		stats.Count("crash_points_explored", points)
+		stats.Case(stats.Hash("first-start", variant), true, []string{"op:first-start-on-empty-storage"}, func() interface{} {
+			return map[string]interface{}{"op": "first NewIPTransport on an empty storage directory", "variant": variant, "crash_points": points, "then": "two complete starts"}
+		})
+		if err != nil {
+			stats.Fail("TestC19FirstStart", err.Error(), variant)
+			t.Fatalf("%v", err)
+		}
+	}
+}
+
 func TestC19Transport(t *testing.T) {
 	rapid.Check(t, func(t *rapid.T) {
 		a := rapid.IntRange(0, 3).Draw(t, "variantA")
